@@ -408,11 +408,91 @@ pub fn check_workspace(tape: &[u16], rc: &mut RCase) -> Result<(), Failure> {
     }
 }
 
+fn other_case(name: &str, k: usize) -> String {
+    match k % 3 {
+        0 => name.to_uppercase(),
+        1 => name.to_lowercase(),
+        _ => name.chars().enumerate().map(|(i, c)| if i % 2 == 0 { c.to_ascii_uppercase() } else { c.to_ascii_lowercase() }).collect(),
+    }
+}
+
+/// Determinism is a property of every source text, also of one the front end refuses: the *outcome* (the encoded
+/// IR, or no IR) must be the same every time. Sources here are generated programs pushed off the valid path:
+/// token mutations, and declarations that differ from another one in case only with a use spelled a third way.
+pub fn check_outcome(tape: &[u16], rc: &mut RCase) -> Result<(), Failure> {
+    let mut t = Tape::new(tape);
+    let mut feat = Feat::core();
+    feat.withdrawals = true;
+    let case = Gen::new(&mut t, feat).generate();
+    let (plain, _) = super::render_pair(&case, &mut t);
+    let mut src = plain.clone();
+    let mut what = vec![];
+    if t.chance(2, 3) {
+        let toks = crate::fegen::lex(&src);
+        // a declared name: the first field of `env { .. }` or the first `party X ;`
+        let decl = (0..toks.len()).find_map(|i| {
+            let solid: Vec<usize> = (i..toks.len()).filter(|k| !toks[*k].trim().is_empty()).take(5).collect();
+            if solid.len() == 5 && toks[solid[0]] == "env" && toks[solid[1]] == "{" && toks[solid[3]] == ":" {
+                Some(("env", solid[2], solid[4]))
+            } else if solid.len() >= 3 && toks[solid[0]] == "party" && toks[solid[2]] == ";" {
+                Some(("party", solid[1], solid[2]))
+            } else {
+                None
+            }
+        });
+        if let Some((kind, name_ix, after_ix)) = decl {
+            let name = toks[name_ix].clone();
+            let second = other_case(&name, t.pick(3));
+            let third = other_case(&name, t.pick(3));
+            let mut toks = toks;
+            // a use of the name elsewhere is respelled
+            let uses: Vec<usize> = (0..toks.len()).filter(|k| *k != name_ix && toks[*k] == name).collect();
+            if !uses.is_empty() && second != name {
+                let u = uses[t.pick(uses.len())];
+                toks[u] = third;
+                let extra = if kind == "env" {
+                    let ty = if toks[after_ix] == "Bytes" { "Address" } else { "Bytes" };
+                    format!(", {}: {}", second, ty)
+                } else {
+                    format!(" party {};", second)
+                };
+                toks.insert(after_ix + 1, extra);
+                src = toks.concat();
+                what.push("declaration_differing_in_case_only");
+            }
+        }
+    }
+    for _ in 0..t.pick(3) {
+        let (s, k) = crate::fegen::mutate(&src, &plain, &mut t);
+        src = s;
+        what.push(k);
+    }
+    let outcome = |s: &str| encode_all(s).unwrap_or_else(|| "<no IR>".to_string());
+    let first = crate::util::guard(|| outcome(&src));
+    let Ok(first) = first else {
+        rc.label("outcome:front_end_panic(C12)");
+        return Ok(());
+    };
+    for i in 0..11 {
+        let again = crate::util::guard(|| outcome(&src)).unwrap_or_else(|_| "<panic>".to_string());
+        if again != first {
+            return Err(Failure::new(
+                "outcome_differs_between_repetitions",
+                format!("repetition {}: {} ; first: {}", i + 2, crate::util::trunc(&again, 300), crate::util::trunc(&first, 300)),
+                json!({"source": src, "mutations": what}),
+            ));
+        }
+    }
+    rc.label(if first == "<no IR>" { "outcome:refused_every_time" } else { "outcome:same_ir_every_time" });
+    rc.record(hash64(&src), !what.is_empty(), || json!({"source": src, "mutations": what}));
+    Ok(())
+}
+
 pub fn run(tier: Tier, seed: u64) -> Report {
     let mut r = Report::new("C18", tier, seed);
     r.rule = "every repository example that lowers and generated programs weighted towards cardano:: directives with >=2 \
               fields; each encoded 20 times in one process; a sample additionally in 3 fresh child processes and through 3 \
-              runs of the built tx3c (TII file bytes). Phase workspace_call_histories: histories of parse / analyze / lower / apply_args calls on one Workspace; every lower() must leave the encoding a fresh workspace produces. Phase after_other_programs: the subject is encoded before and after 1-3 other programs (valid, or accepted-but-not-lowerable) went through the front end on the same thread. Phase tx3c_command_lines: generated programs x generated command lines (protocol metadata, forced profiles and per-profile env files, profile names in several spellings), 5 runs each. Oracle: one byte string over all repetitions. distinct = hash(source); \
+              runs of the built tx3c (TII file bytes). Phase outcome_of_near_miss_sources: generated programs pushed off the valid path (token mutations; a declaration differing from another in case only, with a use spelled a third way): the outcome - encoded IR or none - is the same over 12 repetitions. Phase workspace_call_histories: histories of parse / analyze / lower / apply_args calls on one Workspace; every lower() must leave the encoding a fresh workspace produces. Phase after_other_programs: the subject is encoded before and after 1-3 other programs (valid, or accepted-but-not-lowerable) went through the front end on the same thread. Phase tx3c_command_lines: generated programs x generated command lines (protocol metadata, forced profiles and per-profile env files, profile names in several spellings), 5 runs each. Oracle: one byte string over all repetitions. distinct = hash(source); \
               non-trivial = a directive with >=2 fields or >=2 transactions"
         .into();
     r.assumptions = vec!["processes are children of the same binary on this machine".into()];
@@ -425,6 +505,7 @@ pub fn run(tier: Tier, seed: u64) -> Report {
     });
     r.explore("generated_in_process", tier.pick(6_000, 200_000), 500, &|t, rc| check_case(t, rc, false));
     r.explore("generated_cross_process", tier.pick(120, 4_000), 500, &|t, rc| check_case(t, rc, true));
+    r.explore("outcome_of_near_miss_sources", tier.pick(4_000, 120_000), 700, &|t, rc| check_outcome(t, rc));
     r.explore("workspace_call_histories", tier.pick(4_000, 120_000), 700, &|t, rc| check_workspace(t, rc));
     r.explore("after_other_programs", tier.pick(3_000, 100_000), 900, &|t, rc| check_after_history(t, rc));
     r.explore("tx3c_command_lines", tier.pick(400, 12_000), 500, &|t, rc| check_command_line(t, rc));
@@ -438,6 +519,8 @@ pub fn replay(phase: &str, tape: &[u16], seed: u64) -> Report {
         let ex = examples();
         let i = tape[3] as usize;
         r.enumerate(phase, 1, &|_, rc| judge(&ex[i].1, &ex[i].0, true, rc).map(|_| ()));
+    } else if phase == "outcome_of_near_miss_sources" {
+        r.explore_list(phase, &[tape.to_vec()], &|t, rc| check_outcome(t, rc));
     } else if phase == "workspace_call_histories" {
         r.explore_list(phase, &[tape.to_vec()], &|t, rc| check_workspace(t, rc));
     } else if phase == "after_other_programs" {
